@@ -32,7 +32,9 @@ Definition check_lpath_token (tok : bytes) (obs : option (option bytes)) : bool 
 
 Definition v1 (pad : N) : vnum := mkV 1 pad.
 
-(** ** object id: create_object id, then cp/commit/get_object under the same string *)
+(** ** object id: create_object id, then cp/commit/get_object under the same string
+    ([t] is the id itself since 031a721; the comparison with [id] is kept so that the
+    prediction follows the model of the code and not the theorem) *)
 Definition check_id (id : bytes) (new_ok : bool) (stored : option bytes) (later_ok val_clean : bool) : list bool :=
   match create_object_id id with
   | Ok t =>
@@ -44,13 +46,13 @@ Definition check_id (id : bytes) (new_ok : bool) (stored : option bytes) (later_
   end.
 Definition known_id (id : bytes) : list bool :=
   match create_object_id id with
-  | Ok t => [ c10_id_trimmed id; c10_validator_needs_json_escape PId t ]
-  | _ => [ false; false ]
+  | Ok t => [ c10_validator_needs_json_escape PId t ]
+  | _ => [ false ]
   end.
 
 (** ** content directory: create_object with [cdir], cp of one file to [lp]
     (a canonical benign logical path), commit.  Acceptance is [create_object_cdir]
-    (repo.rs:572-583); the commit of an accepted name still evaluates [cdir_collides]
+    (repo.rs:579-590); the commit of an accepted name still evaluates [cdir_collides]
     (the version directory holds inventory.json and the sidecar of [alg]) - proved
     false for every accepted name, kept so that the prediction follows the code and
     not the theorem. *)
